@@ -46,6 +46,8 @@ pub mod extid;
 pub mod capi;
 pub mod capix;
 pub mod hostcrash;
+pub mod crash;
+pub mod fault;
 
 pub fn all() -> Vec<StreamDef> {
     vec![
@@ -81,6 +83,8 @@ pub fn all() -> Vec<StreamDef> {
         capi::def_ryw(),
         capix::def(),
         hostcrash::def(),
+        crash::def(),
+        fault::def(),
     ]
 }
 
